@@ -282,6 +282,23 @@ func runC03(c *core.Ctx) {
 	c.Section("big-values", c.N(400, 8000), func(cs *core.Case) {
 		c03Value(cs, gen.BigPacket(cs.R), "big")
 	})
+	// packets obtained by decoding accepted datagrams, when they lie in D
+	c.Section("decoded", c.N(100000, 4000000), func(cs *core.Case) {
+		in := corpusDatagram(cs.R)
+		if len(in) == 0 {
+			return
+		}
+		ps, err, pan := gUnmarshal(in)
+		if pan != "" || err != nil {
+			return
+		}
+		for _, p := range ps {
+			if _, raw := p.(*rtcp.RawPacket); raw {
+				continue
+			}
+			c03Value(cs, p, "decoded")
+		}
+	})
 	c.Section("lists-as-compound", c.N(60000, 3000000), func(cs *core.Case) {
 		c03Value(cs, gen.CompoundValue(cs.R, o), "compound")
 	})
